@@ -92,6 +92,7 @@ func TestCheck(t *testing.T) {
 	go func() { // part (a) runs beside part (b)
 		defer wg.Done()
 		t0 := time.Now()
+		failDepth = ev.Pick(r, 2, 99)
 		exploreRunner(r, ev.Pick(r, 3, 5), max(2, ncpu/4))
 		r.Set("a_wall_s", time.Since(t0).Seconds())
 	}()
